@@ -1,6 +1,9 @@
 import MahfModel.Model.Templates
 import MahfModel.Model.TemplatesEval
 import MahfModel.Model.TemplatesSize
+import MahfModel.Model.TemplatesLoops
+import MahfModel.Model.TemplatesParam
+import MahfModel.Model.TemplatesInst
 open MahfModel MahfModel.Tpl Sexp
 
 def compositeNames : List String := ["Block", "Loop", "Branch", "Scope"]
@@ -117,10 +120,196 @@ def c16probe (args : List Sexp) (implOut : Sexp) : Option Verdict := do
   let model := match pred with
     | some a => Sexp.list (a.map showItv)
     | none => .atom "none"
-  let agree := res != "ok" || (match pred with | some a => concB after a | none => false)
+  -- where the modelled size precondition holds the component must succeed (the direction the guard theorems
+  -- rely on: a refusal implies a violated precondition; a component that has become more lenient is no concern here)
+  let guard := match SComp.ofSexp 8 comp with
+    | .leaf k a b => guardOf k a b sizes
+    | _ => none
+  let guardAgrees := match guard with
+    | some true => res == "ok"
+    | _ => true
+  let agree := (res != "ok" || (match pred with | some a => concB after a | none => false)) && guardAgrees
+  let model := Sexp.list [model, .list [.atom "guard", match guard with | some g => ofBool g | none => .atom "-"]]
   pure { agree, holds := true, cls := "-", model }
 
+
+/-! ### Explicit-parameter runs -/
+
+def splitParams (ps : List Sexp) : List Nat × List Float :=
+  ps.foldr (fun p (ns, fs) =>
+    match nat? p with
+    | some n => (n :: ns, fs)
+    | none => match float? p with
+      | some f => (ns, f :: fs)
+      | none => (ns, fs)) ([], [])
+
+inductive TermK where
+  | iters (k : Nat) | evals (n : Nat) | both (k n : Nat) | either (k n : Nat)
+
+def TermK.ofSexp : Sexp → Option TermK
+  | .list [.atom "term", .atom kind, k, n] => do
+    let k ← nat? k
+    let n ← nat? n
+    match kind with
+    | "iters" => some (.iters k)
+    | "evals" => some (.evals n)
+    | "both" => some (.both k n)
+    | "either" => some (.either k n)
+    | _ => none
+  | _ => none
+
+def TermK.cond : TermK → LCond
+  | .iters k => .iterLt k
+  | .evals _ => .other
+  | .both k _ => .both k
+  | .either k _ => .either k
+
+def natsOf (xs : List Sexp) : List Nat := xs.filterMap nat?
+def intsOf (xs : List Sexp) : List Int := xs.filterMap intOf?
+
+/-- Did the loop stop exactly where its condition says?  `ev` = `Evaluations` at the start of every outermost pass
+(pass `i` starts with `Iterations = i`), `evEnd` = at the end, `passes` = completed outermost passes. -/
+def termOk (t : TermK) (passes : Nat) (ev : List Int) (evEnd : Int) : Bool :=
+  let starts := (List.range ev.length).zip ev
+  match t with
+  | .iters k => passes == k
+  | .evals n => starts.all (fun (_, e) => e < n) && evEnd ≥ n
+  | .both k n => starts.all (fun (i, e) => i < k && e < n) && (passes ≥ k || evEnd ≥ n)
+  | .either k n => starts.all (fun (i, e) => i < k || e < n) && (passes ≥ k && evEnd ≥ n)
+
+def isIls (name : String) : Bool := name == "real_ils" || name == "permutation_ils"
+def isAco (name : String) : Bool := name == "ant_system" || name == "max_min_ant_system"
+
+def c16prun (args : List Sexp) (implOut : Sexp) : Option Verdict := do
+  let (name, ps, term) ← match args with
+    | [.atom name, ps, _, _, term] => do pure (name, (← tagged? "ps" ps), (← TermK.ofSexp term))
+    | _ => none
+  let tid ← Tid.ofName name
+  let (ns, fs) := splitParams ps
+  let out ← list? implOut
+  let res ← (field? "res" out).bind atom?
+  -- what the parameters say, computed on the Lean side
+  let cool := if name == "real_fa" then (match fs with | [_, _, _, delta] => faCool delta | _ => true) else true
+  let expected := tplT tid ns cool
+  let presc := prescribedT tid ns
+  let inner : Option Nat := if isIls name then ns.getLast? else none
+  let validDoc := docValidT tid ns fs
+  let ctorModel := ctorOkT tid ns fs
+  if res == "ctor-err" || res == "ctor-panic" || res == "timeout" || res == "bad-input" then
+    -- the generator only produces documented-valid points: the constructor must accept them, the run must end
+    return { agree := ctorModel != some true || res == "timeout", holds := false, cls := res,
+             model := .list [.list [.atom "ctor-ok", match ctorModel with | some b => ofBool b | none => .atom "-"],
+                             .list [.atom "doc-valid", match validDoc with | some b => ofBool b | none => .atom "-"]] }
+  let tree ← field? "tree" out
+  let comp := ofSexp 64 tree
+  let scomp := SComp.ofSexp 64 tree
+  let lcomp := LComp.ofSexp 64 tree
+  let bal := balanced comp
+  let ite := itersExact lcomp
+  let prog := progOkTop lcomp
+  let skelOk := match expected with
+    | some e => skeleton scomp == skeleton e
+    | none => false
+  let condsOk := topConds lcomp == [term.cond] &&
+    scopedConds lcomp == (match inner with | some m => [.iterLt m] | none => [])
+  let sw := match presc with
+    | some (l, h) => sizeWithin scomp l h
+    | none => false
+  -- observations
+  let steps := parseSteps ((out.filterMap (tagged? "steps")).headD [])
+  let passes := ((out.filterMap (tagged? "passes")).headD []).filterMap fun
+    | .list [d, hb, ha, sz] => do pure ((← nat? d), (← intOf? hb), (← intOf? ha), (← intOf? sz))
+    | _ => none
+  let pcount := natsOf ((out.filterMap (tagged? "pcount")).headD [])
+  let p0 := pcount.headD 0
+  let p1 := (pcount.drop 1).headD 0
+  let itouch := ((field? "itouch" out).bind nat?).getD 1
+  let evals := intsOf ((out.filterMap (tagged? "evals")).headD [])
+  let evEnd := ((field? "evals-final" out).bind intOf?).getD (-1)
+  let height := (field? "height" out).bind intOf?
+  let itersObs := (field? "iters" out).bind nat?
+  let zeroDist := ((field? "inst-zero-dist" out).bind bool?).getD false
+  let failedIn := ((field? "failed-in" out).bind atom?).getD "-"
+  -- what the model predicts for the two recorded defects
+  let betaPos := match fs with | _ :: beta :: _ => beta > 0.0 | _ => false
+  -- (both defects strike in the first pass: nothing is predicted for a run whose loop is never entered)
+  let started := !evals.isEmpty
+  let acoPanic := isAco name && acoPanics zeroDist (ns.headD 0) betaPos && started
+  let noProgress := !prog && started
+  -- O: the property on the implementation's run
+  let passLeak := passes.find? fun (_, hb, ha, _) => hb != ha
+  let sizeBad := passes.find? fun (d, _, _, sz) =>
+    d == 0 && (match presc with
+      | some (l, h) => sz < l || (match h with | some h => sz > h | none => false)
+      | none => true)
+  let countOk := termOk term p0 evals evEnd && itersObs == some p0 &&
+    (match inner with | some m => p1 == p0 * m | none => p1 == 0)
+  let cls :=
+    if res != "ok" then
+      if res == "err" && !prog then s!"err@{failedIn}:no-iteration-bound"
+      else if res == "panic" && isAco name && zeroDist then s!"panic@{failedIn}:zero-distance"
+      else s!"{res}@{failedIn}"
+    else if !countOk then "iters"
+    else match passLeak with
+      | some (_, hb, ha, _) => s!"leak{if ha - hb ≥ 0 then "+" else ""}{ha - hb}"
+      | none =>
+        if height != some 1 then s!"height{match height with | some h => toString h | none => "?"}"
+        else if sizeBad.isSome then "size"
+        else "-"
+  -- K: the tree is the template the parameters describe; the analyses answer on it what the all-parameter theorems
+  -- say; every executed component did what its declared effects allow; the run's outcome is the predicted one
+  let bad := firstBadStep steps
+  let leaves := sleaves scomp
+  let badSize := steps.find? fun st => !sizeStepOk leaves st
+  let predictedFail := noProgress || acoPanic
+  -- pass counts predicted by the loop interpreter (iteration-bounded runs: independent of the oracle)
+  let predictedCounts := match term with
+    | .iters _ =>
+      if predictedFail then true else
+      match lexec ⟨fun _ => true, fun _ => false⟩ 100000 0 lcomp (LSt.init lcomp) with
+      | some s => res != "ok" || (passesAt 0 s == p0 && passesAt 1 s == p1 && s.exact)
+      | none => false
+    | _ => true
+  let staticOk := skelOk && condsOk && bal && ite && !hasOpaque comp &&
+    (sw || tid == .real_iwo || tid == .real_cro || presc.isNone) &&
+    toLean scomp.erase == toLean comp
+  let dynamicOk := bad.isNone && badSize.isNone && itouch == 0 && (predictedFail == (res != "ok")) && predictedCounts &&
+    (!sw || res != "ok" || sizeBad.isNone) && (!bal || res != "ok" || (passLeak.isNone && height == some 1))
+  let model := Sexp.list [
+    .list [.atom "skeleton", ofBool skelOk], .list [.atom "conds", ofBool condsOk],
+    .list [.atom "balanced", ofBool bal], .list [.atom "iters-exact", ofBool ite], .list [.atom "progress-ok", ofBool prog],
+    .list [.atom "size-within", ofBool sw],
+    .list [.atom "prescribed", match presc with | some (l, h) => .list [ofNat l, match h with | some h => ofNat h | none => .atom "inf"] | none => .atom "-"],
+    .list [.atom "predicted-fail", ofBool predictedFail],
+    .list [.atom "doc-valid", match validDoc with | some b => ofBool b | none => .atom "-"]]
+  let model := match bad with
+    | some b => Sexp.list [model, .list [.atom "bad-step", .atom b.name, ofInt b.delta]]
+    | none => model
+  let model := match badSize with
+    | some b => Sexp.list [model, .list [.atom "bad-size-step", .atom b.name, ofInt b.size, ofNats b.before]]
+    | none => model
+  pure { agree := staticOk && dynamicOk, holds := cls == "-", cls, model }
+
+/-- `(ctor NAME (ps …))`: on documented-valid points K — the constructor's outcome is what the modelled checks say;
+O — the point is accepted. -/
+def c16ctor (args : List Sexp) (implOut : Sexp) : Option Verdict := do
+  let (name, ps) ← match args with
+    | [.atom name, ps] => do pure (name, (← tagged? "ps" ps))
+    | _ => none
+  let tid ← Tid.ofName name
+  let (ns, fs) := splitParams ps
+  let out ← list? implOut
+  let res ← (field? "res" out).bind atom?
+  let okModel ← ctorOkT tid ns fs
+  let valid ← docValidT tid ns fs
+  -- outside the documented domain nothing is demanded (a constructor may become stricter or more lenient there)
+  pure { agree := !valid || okModel == (res == "ok"), holds := !valid || res == "ok",
+         cls := if !valid || res == "ok" then "-" else res,
+         model := .list [.list [.atom "ctor-ok", ofBool okModel], .list [.atom "doc-valid", ofBool valid]] }
+
 def c16 (input implOut : Sexp) : Option Verdict := do
+  if let some args := tagged? "prun" input then return ← c16prun args implOut
+  if let some args := tagged? "ctor" input then return ← c16ctor args implOut
   if (tagged? "audit" input).isSome then return ← c16audit implOut
   if let some args := tagged? "sizeprobe" input then return ← c16probe args implOut
   let args ← tagged? "run" input
@@ -161,9 +350,19 @@ def c16 (input implOut : Sexp) : Option Verdict := do
   let sizeBad := passes.find? fun (d, _, _, sz) =>
     d == 0 && ((match lo with | some l => sz < l | none => false) || (match hi with | some h => sz > h | none => false))
   let failedIn := ((field? "failed-in" out).bind atom?).getD "-"
+  -- completed passes per loop-nesting depth (not capped); the scoped local search of ILS has its own bound
+  let lcomp := LComp.ofSexp 64 tree
+  let pcount := (((out.filterMap (tagged? "pcount")).headD []).filterMap nat?)
+  let hasPcount := (out.filterMap (tagged? "pcount")).length == 1
+  let p0 := pcount.headD 0
+  let p1 := (pcount.drop 1).headD 0
+  let innerOk := match scopedConds lcomp with
+    | [.iterLt m] => p1 == iters * m
+    | _ => p1 == 0
+  let itouch := ((field? "itouch" out).bind nat?).getD 0
   let cls :=
     if res != "ok" then s!"{res}@{failedIn}"
-    else if itersObs != some iters then "iters"
+    else if itersObs != some iters || (hasPcount && (p0 != iters || !innerOk)) then "iters"
     else match passLeak with
       | some (_, hb, ha, _) => s!"leak{if ha - hb ≥ 0 then "+" else ""}{ha - hb}"
       | none =>
@@ -181,7 +380,8 @@ def c16 (input implOut : Sexp) : Option Verdict := do
   let sizePredicted := !sw || res != "ok" || sizeBad.isNone
   -- both translators read the same structure
   let sameTree := toLean scomp.erase == toLean comp
-  let agree := bad.isNone && !hasOpaque comp && predicted && badSize.isNone && sizePredicted && sameTree
+  let agree := bad.isNone && !hasOpaque comp && predicted && badSize.isNone && sizePredicted && sameTree &&
+    itersExact lcomp && itouch == 0
   let model := match bad with
     | some b => Sexp.list [model, .list [.atom "bad-step", .atom b.name, ofInt b.delta]]
     | none => model
@@ -210,8 +410,28 @@ partial def genSizedLoop (h : IO.FS.Stream) (acc : Array String) : IO (Array Str
     genSizedLoop h (acc.push s!"def {name}_v{v} : SComp := {SComp.toLean c}")
   | _ => genSizedLoop h acc
 
+/-- `--gen-loops`: the same stdin ↦ Lean source of `Generated/TemplatesLoops.lean` (loops with their conditions). -/
+partial def genLoopsLoop (h : IO.FS.Stream) (acc : Array String) : IO (Array String) := do
+  let line ← h.getLine
+  if line.isEmpty then return acc
+  match Sexp.parse line.trimAscii.toString with
+  | some (.list [.atom "tree", .atom name, .atom v, tree]) =>
+    let c := LComp.ofSexp 64 tree
+    genLoopsLoop h (acc.push s!"def {name}_v{v} : LComp := {LComp.toLean c}")
+  | _ => genLoopsLoop h acc
+
 def main (args : List String) : IO Unit := do
-  if args.contains "--gen-sized" then
+  if args.contains "--gen-loops" then
+    let defs ← genLoopsLoop (← IO.getStdin) #[]
+    IO.println "/- GENERATED on every run by `harness c16 --trees | drv_c16 --gen-loops` from the component trees that"
+    IO.println "   the real template constructors build (serialised through the code's own `Serialize`), keeping the"
+    IO.println "   loops, scopes and loop conditions. Do not edit. -/"
+    IO.println "import MahfModel.Model.TemplatesLoops"
+    IO.println "namespace MahfModel.Generated.Loops"
+    IO.println "open MahfModel.Tpl"
+    for d in defs do IO.println d
+    IO.println "end MahfModel.Generated.Loops"
+  else if args.contains "--gen-sized" then
     let defs ← genSizedLoop (← IO.getStdin) #[]
     IO.println "/- GENERATED on every run by `harness c16 --trees | drv_c16 --gen-sized` from the component trees that"
     IO.println "   the real template constructors build (serialised through the code's own `Serialize`), keeping the"
